@@ -18,4 +18,4 @@ Extraction "model.ml"
   nid_eqb mk_node node_last
   c01_check c02_check c12_state check_step arena_eqb abs live_b slot_removed_b live_ids
   spec_ancestors spec_preceding spec_following spec_predecessors spec_children spec_descendants
-  spec_traverse spec_print spec_de_seq de_spec spec_id_at reusable_slots.
+  spec_traverse spec_print spec_de_seq de_spec spec_id_at reusable_slots payload_at.
